@@ -2,7 +2,9 @@
 
 Generated target-graph projects (harness/projgen.py) and, in the thorough tier, the repository's own
 test-case projects are configured with the real `meson setup` (ninja backend, fake ninja binary) and
-build.ninja is judged by the independent Ninja implementation in harness/refninja.py.
+build.ninja is judged by the independent Ninja implementation in harness/refninja.py.  In both tiers the
+deterministic catalogue of feature projects (harness/featproj.py) is judged the same way, plus reachability of
+the outputs each project declares as built by default / needed by its tests.
 """
 from __future__ import annotations
 
